@@ -59,7 +59,11 @@ var opaque3Names = []string{"sphere", "cylinder", "cone", "torus", "capsule", "s
 var opaque2Names = []string{"circle", "capsule2", "triangle2", "teardrop2d", "teardrop2dDirected", "gearProfile",
 	"gearProfileSizes", "bitmap", "sliceSolid", "polytope2", "meshSolid2"}
 
+// extraProbes: leaf-specific points worth querying (set by makeOpaque3, consumed by shellCase)
+var extraProbes []pt
+
 func makeOpaque3(c *hlib.Ctx, name string) model3d.Solid {
+	extraProbes = nil
 	p1 := rndPt3(c, 4)
 	dir := rndDir3(c)
 	length := rndSize(c)
@@ -130,12 +134,35 @@ func makeOpaque3(c *hlib.Ctx, name string) model3d.Solid {
 		// the ramp axis: inside the solid's box, partly outside, or entirely elsewhere
 		a := inner.Min().Add(inner.Max().Sub(inner.Min()).Mul(model3d.XYZ(c.Rng.Float64(), c.Rng.Float64(), c.Rng.Float64())))
 		b := inner.Min().Add(inner.Max().Sub(inner.Min()).Mul(model3d.XYZ(c.Rng.Float64(), c.Rng.Float64(), c.Rng.Float64())))
-		switch c.Rng.Intn(3) {
+		switch c.Rng.Intn(4) {
 		case 1:
 			a = a.Add(rndPt3(c, 2*r+1))
 		case 2:
 			a = a.Add(rndPt3(c, 2*r+1))
 			b = b.Add(rndPt3(c, 2*r+1))
+		case 3:
+			// tip on a face of the box, base far away in an oblique direction
+			arr := a.Array()
+			k := c.Rng.Intn(3)
+			if c.Rng.Intn(2) == 0 {
+				arr[k] = inner.Max().Array()[k]
+			} else {
+				arr[k] = inner.Min().Array()[k]
+			}
+			a = model3d.NewCoord3DArray(arr)
+			b = a.Add(rndPt3(c, 4*r+2))
+		}
+		// the points the ramp pulls towards its axis: (1-s)*(a+s*(b-a)) + s*m for m in the solid's box
+		for k := 0; k < 300; k++ {
+			m := inner.Min().Add(inner.Max().Sub(inner.Min()).Mul(model3d.XYZ(c.Rng.Float64(), c.Rng.Float64(), c.Rng.Float64())))
+			// the ramp maps c back to m exactly when m-ax is orthogonal to the axis: take the scale from m
+			axis := b.Sub(a)
+			sc := axis.Dot(m.Sub(a)) / axis.Dot(axis)
+			if !(sc > 0 && sc < 1) {
+				sc = c.Rng.Float64()
+			}
+			ax := a.Add(axis.Scale(sc))
+			extraProbes = append(extraProbes, p3(ax.Add(m.Sub(ax).Scale(sc))))
 		}
 		return &toolbox3d.Ramp{Solid: inner, P1: a, P2: b}
 	case "clampAxis":
@@ -222,7 +249,11 @@ func makeOpaque2(c *hlib.Ctx, name string) model2d.Solid {
 func runShells(c *hlib.Ctx) {
 	per := c.N/40 + 2
 	for _, name := range opaque3Names {
-		for i := 0; i < per; i++ {
+		k := per
+		if name == "ramp" {
+			k = 4 * per // the leak region of a ramp (between the box and the axis) is small: more cases
+		}
+		for i := 0; i < k; i++ {
 			shellCase(c, name, true)
 		}
 	}
@@ -271,6 +302,9 @@ func shellCase(c *hlib.Ctx, name string, d3 bool) {
 				q[i] = lo[i] - deltas[c.Rng.Intn(len(deltas))]
 				pts = append(pts, q)
 			}
+		}
+		if d3 {
+			pts = append(pts, extraProbes...)
 		}
 		n := 0
 		for _, p := range pts {
